@@ -273,10 +273,10 @@ func init() {
 		MinNontrivial: 5000,
 		Streams: []Stream{
 			{Name: "lattice", N: c12LatticeN, Run: c12Lattice, Exhaustive: true},
-			{Name: "random", N: func(c *Ctx) int { return tierN(c, 20000, 1500000) }, Run: c12Random},
+			{Name: "random", N: func(c *Ctx) int { return tierN(c, 20000, 4000000) }, Run: c12Random},
 			{Name: "nested", N: func(c *Ctx) int { return tierN(c, 3000, 200000) }, Run: c12Nested},
 			{Name: "long", N: c12LongN, Run: c12Long, Exhaustive: true},
-			{Name: "direct", N: func(c *Ctx) int { return tierN(c, 40000, 3000000) }, Run: c12Direct},
+			{Name: "direct", N: func(c *Ctx) int { return tierN(c, 40000, 8000000) }, Run: c12Direct},
 		},
 	})
 }
